@@ -319,6 +319,10 @@ pub struct Exec {
     pub ingested_last: std::collections::BTreeSet<(u8, Vec<u8>)>,
     /// deviations that are classified as known findings and do not end the case
     pub soft: Vec<Deviation>,
+    /// seqno of the latest journaled write per key (C18 mode; deterministic single client)
+    pub wseq: BTreeMap<(u8, Vec<u8>), u64>,
+    /// highest persisted seqno per keyspace right after the last (re)open
+    pub persisted_at_open: BTreeMap<u8, Option<u64>>,
 }
 
 fn err(sig: &str, what: &str, e: &fjall::Error) -> Deviation {
@@ -348,6 +352,8 @@ impl Exec {
             checks_since_open: BTreeMap::new(),
             ingested_last: std::collections::BTreeSet::new(),
             soft: Vec::new(),
+            wseq: BTreeMap::new(),
+            persisted_at_open: BTreeMap::new(),
         }
     }
 
@@ -561,7 +567,24 @@ impl Exec {
 
     pub fn apply(&mut self, idx: usize, op: &Op) -> R<()> {
         self.emit_mark(&format!("S {idx}"));
+        let seq_before = if self.filtered && op.is_write() && self.is_open() {
+            Some(self.db().seqno())
+        } else {
+            None
+        };
         let r = self.apply_inner(op);
+        if let (Some(s), true) = (seq_before, r.is_ok()) {
+            self.note_wseq(op, s);
+        }
+        if self.filtered && matches!(op, Op::Reopen { .. }) && r.is_ok() {
+            let kss: Vec<u8> = self.model.ks.keys().copied().collect();
+            self.persisted_at_open.clear();
+            for ks in kss {
+                if let Ok(h) = self.handle(ks) {
+                    self.persisted_at_open.insert(ks, h.tree.get_highest_persisted_seqno());
+                }
+            }
+        }
         match &r {
             Ok(()) => self.emit_mark(&format!("A {idx} ok")),
             Err(_) => self.emit_mark(&format!("A {idx} err")),
@@ -894,6 +917,25 @@ impl Exec {
         Ok(())
     }
 
+    fn note_wseq(&mut self, op: &Op, s: u64) {
+        match op {
+            Op::Insert { ks, key, .. } | Op::Remove { ks, key } | Op::RemoveWeak { ks, key } => {
+                self.wseq.insert((*ks, key.clone()), s);
+            }
+            Op::Batch { items, .. } | Op::Tx { items, .. } => {
+                for it in items {
+                    self.wseq.insert((it.ks, it.key.clone()), s);
+                }
+            }
+            Op::Ingest { ks, items } => {
+                for (k, _) in items {
+                    self.wseq.remove(&(*ks, k.clone()));
+                }
+            }
+            _ => {}
+        }
+    }
+
     fn forget_filtered(&mut self, op: &Op) {
         match op {
             Op::Insert { ks, key, .. } => {
@@ -1000,7 +1042,18 @@ impl Exec {
             } else if is_original && !is_filtered {
                 let first_after_reopen =
                     self.opens >= 2 && self.checks_since_open.get(&ks).copied().unwrap_or(0) == 0;
-                if self.seen_filtered.contains(&key) && first_after_reopen && !self.ingested_last.contains(&key) {
+                // ... and only when the keyspace's tables, as recovered, no longer carried a seqno that
+                // covers the key's journaled write (otherwise recovery must have skipped the record)
+                let covered = match (self.persisted_at_open.get(&ks).copied().flatten(), self.wseq.get(&key)) {
+                    (Some(p), Some(w)) => p >= *w,
+                    _ => false,
+                };
+                let uncovered = !covered || self.cfg.workers > 0;
+                if self.seen_filtered.contains(&key)
+                    && first_after_reopen
+                    && uncovered
+                    && !self.ingested_last.contains(&key)
+                {
                     // explained-by predicate (DESIGN.md App. D, F4): the first observation after a
                     // reopen, of a key whose current value was written by a journaled operation
                     self.seen_filtered.remove(&key);
